@@ -249,6 +249,7 @@ def _patched_unescape(cp):
     un = cp.modules["pest.grammar.unescape"]
     un.int = symx.sym_int
     un.chr = symx.sym_chr
+    un.ord = symx.sym_ord
     if isinstance(getattr(un, "HEX_DIGITS", None), frozenset):
         un.HEX_DIGITS = pestenv.SymAwareSet(un.HEX_DIGITS)
     return un
